@@ -527,8 +527,17 @@ class Gen:
         for name, expr in self.families():
             if self.only is not None and not self.only.startswith(f"num:{name}:"):
                 continue
-            unfolded = expr.doit()
             n_factors = len(expr.args) if isinstance(expr, (I.ae.ArrayMultiplication, I.ae.MatrixMultiplication)) else 1
+            try:
+                unfolded = expr.doit()
+            except Exception as e:  # noqa: BLE001  (unfolding itself failed: no numerical code can be generated)
+                for cse in (False, True):
+                    key = f"num:{name}:cse={cse}"
+                    if self.want(key):
+                        rec.add({"k": "num", "ms": [lx.ID_REC], "hasv": 0, "v": [], "out": [], "raised": 1, "finite": 1, "pyok": 0,
+                                 "exc": "doit " + _exc_text(e)}, input="doit", exc_type=type(e).__name__,
+                                **dict(kind="num", subject=f"{name}:numpy:cse={cse}", key=key))
+                continue
             for cse in (False, True):
                 key = f"num:{name}:cse={cse}"
                 if not self.want(key):
@@ -641,7 +650,7 @@ class Gen:
         eta = np.diag([1.0, -1, -1, -1])
         eps = 2.0**-52
         made = 0
-        for k in range(0, 5):
+        for k in range(-4, 5):   # slow (beta*gamma 1e-4) to ultra-relativistic (1e4)
             for mult in (1.0, 3.0):
                 bg = mult * 10.0**k
                 if bg > 1e4:
